@@ -168,6 +168,7 @@ fn download(peer: &Peer, first: &(Vec<u8>, SocketAddr), listener: SocketAddr, si
     let mut in_window = 0u64;
     let mut done = false;
     let mut copies: std::collections::BTreeMap<u64, u64> = Default::default();
+    let mut strays = 0u64;
     let deadline = Instant::now() + Duration::from_secs(20);
     loop {
         let dg = match pending.take() {
@@ -185,6 +186,7 @@ fn download(peer: &Peer, first: &(Vec<u8>, SocketAddr), listener: SocketAddr, si
             if dg.len() >= 2 && dg[1] == 5 {
                 return format!("dl=error:{}", hex(&dg));
             }
+            strays += 1;
             continue;
         }
         ndata += 1;
@@ -215,7 +217,7 @@ fn download(peer: &Peer, first: &(Vec<u8>, SocketAddr), listener: SocketAddr, si
     }
     let mults: std::collections::BTreeSet<u64> = copies.values().cloned().collect();
     let mult = if mults.len() == 1 { mults.iter().next().unwrap().to_string() } else if mults.is_empty() { "0".into() } else { "var".into() };
-    format!("dl={}/{}/{}/{}/{}/{}", fp(&got), ndata, maxpay, first_burst, mult, if done { "done" } else { "incomplete" })
+    format!("dl={}/{}/{}/{}/{}/x{}/{}", fp(&got), ndata, maxpay, first_burst, mult, strays, if done { "done" } else { "incomplete" })
 }
 
 /// Lock-step conformant upload client.
@@ -517,6 +519,52 @@ pub fn gen_srv(rng: &mut Rng, count: u64, tier: &str) -> Vec<String> {
         }
         steps.push(probe.clone());
         out.push(format!("srv {flags} 0 {tree} {}", steps.join(";")));
+    }
+    // option boundary sweep: every boundary value of every option, read and write, both port modes
+    let sweeps: &[(&str, &[&str])] = &[
+        ("blksize", &["0", "1", "7", "8", "9", "10", "14", "512", "1024", "1468", "65464", "65465", "65536", "4294967296", "9223372036854775808", "18446744073709551615", "18446744073709551616", "-1", "x"]),
+        ("timeout", &["0", "1", "2", "255", "256", "1099511627776", "18446744073709551615"]),
+        ("windowsize", &["0", "1", "2", "8", "65535", "65536", "65537", "131073"]),
+        ("tsize", &["0", "77", "18446744073709551615"]),
+        ("BlkSize", &["16"]),
+        ("x-unknown", &["sha256", "12", ""]),
+    ];
+    let mut k = 0usize;
+    for (name, vals) in sweeps {
+        for v in vals.iter() {
+            for flags in ["-", "s"] {
+                k += 1;
+                if tier != "thorough" && count < 2000 && k % 2 == 1 && !(*name == "blksize") {
+                    continue;
+                }
+                let opts = vec![(name.to_string(), v.to_string())];
+                let mixed = vec![("blksize".to_string(), "600".to_string()), (name.to_string(), v.to_string())];
+                out.push(format!("srv {flags} 0 {tree} q0:{}:D;{probe}", hex(&req(1, b"a.txt", &opts))));
+                out.push(format!("srv {flags} 0 {tree} q0:{}:UP700_3;{probe}", hex(&req(2, b"new.bin", &opts))));
+                out.push(format!("srv {flags} 0 {tree} q0:{}:D;q1:{}:UP1300_4;{probe}", hex(&req(1, b"big", &mixed)), hex(&req(2, b"sub/new.bin", &mixed))));
+            }
+        }
+    }
+    // transfer grid: block size x window size x length, both directions, port modes, duplicates
+    let mut grid = vec![];
+    for blk in [8u64, 9, 512, 1024, 1468] {
+        for ws in [1u64, 2, 3, 8] {
+            let o = vec![("blksize".to_string(), blk.to_string()), ("windowsize".to_string(), ws.to_string())];
+            for (fi, flags) in ["-", "s", "so", "d", "sd"].iter().enumerate() {
+                for file in ["a.txt", "empty", "sub/b.bin", "big"] {
+                    grid.push(format!("srv {flags} {} {tree} q0:{}:D;{probe}", (fi + blk as usize) % 2, hex(&req(1, file.as_bytes(), &o))));
+                }
+                for size in [0, blk - 1, blk, blk + 1, ws * blk - 1, ws * blk, ws * blk + 1, 3000] {
+                    grid.push(format!("srv {flags} {} {tree} q0:{}:UP{}_{};{probe}", (fi + ws as usize) % 2, hex(&req(2, b"up.dat", &o)), size, size % 200));
+                }
+            }
+        }
+    }
+    let stride = if tier == "thorough" { 1 } else { 7 };
+    for (i, g) in grid.into_iter().enumerate() {
+        if i % stride == (count as usize) % stride {
+            out.push(g);
+        }
     }
     for _ in 0..count {
         let mut flags = String::new();
